@@ -294,7 +294,24 @@ def sched_task_fn(cx, n):
             if a[0] == 'fn':
                 fnarg = a[1]
         return ctor, fnarg, t[2]
+    # the task may be built by a private helper: look for the task constructor inside it
+    if t[0] == 'call':
+        for k, f in cx.facts.fns.items():
+            if callee_path_matches(f, t[1]):
+                hg = cx.graph(k)
+                for x in hg.nodes:
+                    if x['kind'] in ('call', 'enter') and x['name'].startswith('scheduler::') and x['name'].endswith('::new'):
+                        for a in x['args']:
+                            a = strip(a)
+                            if a[0] == 'fn':
+                                return x['name'], a[1], tuple(x['args'])
     return ('?', None, ())
+
+
+def callee_path_matches(fn, name):
+    """does the normalised callee name `name` denote local function `fn`?"""
+    from .expr import norm_path
+    return fn['kind'] in ('fn', 'assoc_fn') and norm_path(fn['path']) == name
 
 
 def task_tokens(cx, n):
